@@ -123,6 +123,7 @@ class FnSpec:
         self.file = relfile
         self.key = key
         self.name = None
+        self.label = None
         self.props = []
         self.subs = []
         self.recv = None
@@ -140,6 +141,8 @@ class FnSpec:
         self.closures = {}
         self.view = False
         self.noret = False
+        self.breakvals = []
+        self.nested = {}
 
 
 def parse_tags(s):
@@ -242,6 +245,8 @@ class Generator:
                         tgt = cur[2]["ensures"] if cur[2] is not None else spec.ensures
                         for c in clauses:
                             tgt.append((cur[1], c))
+                    elif k == "nested":
+                        spec.nested[cur[1]] = text
                     elif k == "loop":
                         spec.loops[cur[1]] = text
                     elif k == "closure":
@@ -261,6 +266,8 @@ class Generator:
                         arg = w[1] if len(w) > 1 else ""
                         if cmd == "name":
                             spec.name = arg.strip()
+                        elif cmd == "label":
+                            spec.label = arg.strip()
                         elif cmd == "props":
                             spec.props = [x.strip() for x in arg.split(",") if x.strip()]
                         elif cmd == "sub":
@@ -293,6 +300,11 @@ class Generator:
                             label, when = [x.strip() for x in arg.split(":", 1)]
                             case = {"label": label, "when": when, "ensures": [], "requires": []}
                             spec.cases.append(case)
+                        elif cmd == "breakval":
+                            w2 = arg.split(None, 1)
+                            spec.breakvals.append((int(w2[0]), w2[1].strip() if len(w2) > 1 else None))
+                        elif cmd == "nested":
+                            cur = ("nested", int(arg), None)
                         elif cmd == "loop":
                             cur = ("loop", int(arg), None)
                         elif cmd == "closure":
@@ -404,7 +416,7 @@ class Generator:
         return res
 
     def planned_ids(self, spec):
-        base = spec.name or spec.key.split("::")[-1]
+        base = spec.label or spec.name or spec.key.split("::")[-1]
         out = []
         for suffix, c, props, _ in self.copies(spec):
             out.append(("%s/%s%s" % (self.unit, base, suffix.replace("__", "#", 1) if suffix else ""), props))
@@ -482,6 +494,22 @@ class Generator:
             if n < 1 or n > len(it["loops"]):
                 raise Undecided("loop %d does not exist (lost anchor)" % n)
             common.append((it["loops"][n - 1]["body_start"], it["loops"][n - 1]["body_start"], "\n" + text + "\n"))
+        for n, bty in spec.breakvals:
+            if n < 1 or n > len(it["loops"]):
+                raise Undecided("breakval: loop %d does not exist (lost anchor)" % n)
+            lp = it["loops"][n - 1]
+            if lp["kind"] != "loop" or not lp.get("breaks"):
+                raise Undecided("breakval: loop %d has no `break <value>`" % n)
+            common.append((lp["span"][0], lp["span"][0], "let __brk%d%s; " % (n, (": " + bty) if bty else "")))
+            for b in lp["breaks"]:
+                common.append((b["span"][0], b["expr"][0], "{ __brk%d = " % n))
+                common.append((b["expr"][1], b["expr"][1], "; break; }"))
+            common.append((lp["span"][1], lp["span"][1], "\n__brk%d" % n))
+            self.log.append({"rule": "R-BREAKVAL", "site": site, "count": len(lp["breaks"])})
+        for n, text in spec.nested.items():
+            if n < 1 or n > len(it.get("nested", [])):
+                raise Undecided("nested fn %d does not exist (lost anchor)" % n)
+            common.append((it["nested"][n - 1]["body_start"], it["nested"][n - 1]["body_start"], "\n" + text + "\n"))
         for n, text in spec.closures.items():
             if n < 1 or n > len(it["closures"]):
                 raise Undecided("closure %d does not exist (lost anchor)" % n)
@@ -519,14 +547,14 @@ class Generator:
             text = apply_edits(src, s, e, eds, spec.subs, self.log if not emitted_any else [], site)
             if it["vis"] is None and not spec.novis:
                 text = "pub " + text.lstrip()
-            oid = "%s/%s%s" % (self.unit, base, ("#" + suffix[2:]) if suffix else "")
+            oid = "%s/%s%s" % (self.unit, spec.label or base, ("#" + suffix[2:]) if suffix else "")
             self.emit("// ---- extracted: %s  (obligation %s; properties %s)" % (site, oid, ",".join(props)))
+            start = self.lineno()
             for a in spec.attrs:
                 self.emit(a)
             if spec.external:
                 self.emit("#[verifier::external_body]")
                 self.trusted.append({"kind": "R-EXT", "what": site})
-            start = self.lineno()
             self.emit(text)
             end = self.lineno() - 1
             if not spec.external:
@@ -589,4 +617,8 @@ def assumption_scan(text):
 def generate(unit_path):
     g = Generator(unit_path)
     text = g.run()
+    ids = [o["id"] for o in g.obligations]
+    dup = sorted(set(i for i in ids if ids.count(i) > 1))
+    if dup:
+        raise RuntimeError("duplicate obligation ids in %s: %s" % (unit_path, dup))
     return g, text
